@@ -3,6 +3,7 @@ package main
 import (
 	"go/token"
 	"go/types"
+	"sort"
 
 	"golang.org/x/tools/go/ssa"
 )
@@ -33,7 +34,51 @@ func (c *Ctx) cryptoOffEdges(rule string, fn *ssa.Function) []Edge {
 	}
 	off1, _ := fieldCondEdges(fn, gcm)
 	off2, _ := fieldCondEdges(fn, enc)
-	return append(off1, off2...)
+	out := append(off1, off2...)
+	// the same fact established through a boolean helper ("if s.cipherActive()") or a local boolean
+	atom := func(_ *cxFrame, a Atom) (onTrue, onFalse bool) {
+		switch a.Op {
+		case token.ILLEGAL:
+			if a.X != nil && readsField(a.X, enc) {
+				if a.Neg {
+					return true, false
+				}
+				return false, true
+			}
+		case token.EQL, token.NEQ:
+			var other ssa.Value
+			if readsField(a.X, gcm) {
+				other = a.Y
+			} else if readsField(a.Y, gcm) {
+				other = a.X
+			}
+			if other == nil || !isNilConst(other) {
+				return false, false
+			}
+			eqNil := a.Op == token.EQL
+			if a.Neg {
+				eqNil = !eqNil
+			}
+			return eqNil, !eqNil
+		}
+		return false, false
+	}
+	have := map[Edge]bool{}
+	for _, e := range out {
+		have[e] = true
+	}
+	for e := range c.cxFactCuts(cxTop(fn), atom, 3).Edges {
+		if !have[e] {
+			out = append(out, e)
+		}
+	}
+	sort.Slice(out, func(i, j int) bool {
+		if out[i].From.Index != out[j].From.Index {
+			return out[i].From.Index < out[j].From.Index
+		}
+		return out[i].Succ < out[j].Succ
+	})
+	return out
 }
 
 // C02-R1: no success return of the receivers without AEAD verification or a crypto-off edge.
